@@ -58,6 +58,18 @@ func c11Faults() []c11Fault {
 		{"fault in the second alternative of a case", func() Expr {
 			return &MatchExpr{Subj: &ObjLit{}, Cases: []MatchCase{{Pats: []Expr{Arr_(V("q")), N("1")}, Body: S("one")}, {Pats: []Expr{V("x")}, Body: S("other")}}}
 		}, false},
+		// divisors that are not numbers but coerce to zero (3.4: the error depends on the coerced value, not on the kind)
+		{"divide by null", func() Expr { return Bin("/", N("1"), &NullLit{}) }, false},
+		{"divide by the empty string", func() Expr { return Bin("/", N("1"), S("")) }, false},
+		{"divide by a non-numeric string", func() Expr { return Bin("/", N("1"), S("abc")) }, false},
+		{"divide by the string 0", func() Expr { return Bin("/", N("1"), S("0")) }, false},
+		{"divide by false", func() Expr { return Bin("/", N("1"), &BoolLit{B: false}) }, false},
+		{"divide by a missing member", func() Expr { return Bin("/", V("numv"), Mem(V("objv"), "nokey")) }, false},
+		{"divide by an unset variable", func() Expr { return Bin("/", V("numv"), V("neverset")) }, false},
+		{"divide by a container", func() Expr { return Bin("/", N("1"), V("arrv")) }, false},
+		{"modulo a fraction below one", func() Expr { return Bin("%", N("7"), N("0.5")) }, false},
+		{"modulo null", func() Expr { return Bin("%", N("7"), Mem(V("objv"), "nul")) }, false},
+		{"/= by a string that coerces to zero", func() Expr { return Asg("/=", V("numv"), S("x")) }, false},
 		{"benign number", func() Expr { return N("7") }, true},
 		{"benign string", func() Expr { return S("s") }, true},
 		{"benign array", func() Expr { return V("arrv") }, true},
@@ -175,6 +187,31 @@ func c11Slots() []c11Slot {
 		}),
 		exprSlot("match case body expression", true, func(e Expr) Expr { return any(e, nil) }),
 		exprSlot("match case block", true, func(e Expr) Expr { return any(nil, Blk(Ex(Asg("=", V("t"), e)))) }),
+		// loop bodies: the fault ends the run, not just the loop
+		stmtSlot("while body", true, func(e func() Expr) Stmt {
+			return Blk(&While{Cond: Bin("<", &Postfix{"++", V("wn")}, N("2")), Body: Blk(Pr(S("loop")), Ex(Asg("=", V("t"), e())), Pr(S("rest of body")))}, Pr(S("after the loop")))
+		}),
+		stmtSlot("for body", true, func(e func() Expr) Stmt {
+			return Blk(&For{Init: Asg("=", V("n"), N("0")), Cond: Bin("<", V("n"), N("2")), Post: &Postfix{"++", V("n")}, Body: Blk(Pr(S("loop")), Ex(Asg("=", V("t"), e())), Pr(S("rest of body")))}, Pr(S("after the loop")))
+		}),
+		stmtSlot("for-in over an array body", true, func(e func() Expr) Stmt {
+			return Blk(&ForIn{V: "v", Iter: V("arrv"), Body: Blk(Pr(S("loop"), V("v")), Ex(Asg("=", V("t"), e())), Pr(S("rest of body")))}, Pr(S("after the loop")))
+		}),
+		stmtSlot("for-in over an object body", true, func(e func() Expr) Stmt {
+			return Blk(&ForIn{V: "k", W: "v", Iter: V("objv"), Body: Blk(Pr(S("loop"), V("k")), Ex(Asg("=", V("t"), e())), Pr(S("rest of body")))}, Pr(S("after the loop")))
+		}),
+		stmtSlot("for-in over an object, one variable", true, func(e func() Expr) Stmt {
+			return Blk(&ForIn{V: "k", Iter: V("objv"), Body: Blk(Pr(S("loop"), V("k")), Ex(Asg("=", V("t"), e())))}, &ForIn{V: "k", Iter: &ObjLit{Keys: []string{"z"}, Vals: []Expr{N("1")}}, Body: Blk(Pr(S("loop"), V("k")), Ex(Asg("=", V("t"), e())))}, Pr(S("after the loop")))
+		}),
+		stmtSlot("for-in over a string body", true, func(e func() Expr) Stmt {
+			return Blk(&ForIn{V: "ch", Iter: S("ab"), Body: Blk(Pr(S("loop"), V("ch")), Ex(Asg("=", V("t"), e())))}, Pr(S("after the loop")))
+		}),
+		stmtSlot("inner loop inside an object for-in", true, func(e func() Expr) Stmt {
+			return Blk(&ForIn{V: "k", Iter: V("objv"), Body: Blk(&ForIn{V: "v", Iter: V("arrv"), Body: Blk(Pr(S("inner"), V("k"), V("v")), Ex(Asg("=", V("t"), CallE(V("idf"), e()))))}, Pr(S("after the inner loop")))}, Pr(S("after the loop")))
+		}),
+		stmtSlot("match block inside an object for-in", true, func(e func() Expr) Stmt {
+			return Blk(&ForIn{V: "k", Iter: V("objv"), Body: Blk(Ex(Asg("=", V("t"), any(nil, Blk(Pr(S("in match")), Ex(Asg("=", V("t"), e())))))), Pr(S("rest of body")))}, Pr(S("after the loop")))
+		}),
 		{"return expression", func(e func() Expr) ([]*Rule, []*Func, []Expr) {
 			f := &Func{Name: "fr", Body: Blk(Pr(S("in fr")), &Return{e()})}
 			body := append(c11Setup(), Pr(S("before")), Ex(Asg("=", V("t"), CallE(V("fr")))), Pr(S("after")))
